@@ -61,7 +61,7 @@ pub const REWRITES: [&str; 20] = [
 ];
 
 /// structs with a `$value` field (an unknown child would be taken for a variant)
-const NO_UNKNOWN_CHILD: [&str; 4] = ["s_choice", "s_choices", "s_ovlvalue", "s_valueplus"];
+const NO_UNKNOWN_CHILD: [&str; 6] = ["s_choice", "s_choices", "s_ovlvalue", "s_valueplus", "s_tree", "s_group"];
 
 /// parent element name at each boundary 0..=len (boundary i is before token i)
 fn parents(t: &[Tok]) -> Vec<Option<String>> {
